@@ -214,7 +214,15 @@ def random_step(rng, tr, seg):
     if r < 0.70:
         return ["swap", pick(), pick()]
     if r < 0.74:
-        return ["attrs", pick(), rng.choice(["custom", "t", "track_id", "pos", "area"]), rng.randrange(5)]
+        return ["attrs", pick(), rng.choice(["custom", "t", "track_id", "pos", "area", "lineage_id", "iou", "circularity"]), rng.randrange(5)]
+    if getattr(rng, "c10", False) and rng.random() < 0.35:
+        # the track id of a SolutionTracks is never switched off ("every node must have a track_id"): with it
+        # disabled the TrackAnnotator ignores every edit, lineage bookkeeping included - outside C04/C05/C06's domain
+        avail = [k for k in tr.get_available_features().keys() if k != tr.features.tracklet_key]
+        ks = rng.sample(avail, rng.randrange(1, min(3, len(avail)) + 1))
+        if rng.random() < 0.12:
+            ks.append("no_such_feature")
+        return [rng.choice(["enable", "disable"]), ks]
     if r < 0.87 or not seg:
         return [rng.choice(["undo", "undo", "redo"])]
     # paint stroke
@@ -251,7 +259,8 @@ def check_state(tr, props, where):
         for u, v in g.edges:
             if not g.nodes[u][tk] < g.nodes[v][tk]:
                 out.append(("C03", f"{where}: edge {u}->{v} is not forward in time"))
-    if "C04" in props:
+    enabled_now = set(tr.annotators.features.keys())
+    if "C04" in props and tr.features.tracklet_key in enabled_now:
         part = {}
         for s in segments(g):
             ids = {tr.get_track_id(n) for n in s}
@@ -262,7 +271,7 @@ def check_state(tr, props, where):
         for i, ss in part.items():
             if len(ss) > 1:
                 out.append(("C04", f"{where}: track id {i} labels several segments {ss}"))
-    if "C05" in props and tr.features.lineage_key is not None:
+    if "C05" in props and tr.features.lineage_key is not None and tr.features.lineage_key in enabled_now and tr.features.tracklet_key in enabled_now:
         part = {}
         for s in nx.weakly_connected_components(g):
             ids = {tr.get_lineage_id(n) for n in s}
@@ -273,7 +282,7 @@ def check_state(tr, props, where):
         for i, ss in part.items():
             if len(ss) > 1:
                 out.append(("C05", f"{where}: lineage id {i} labels several components {ss}"))
-    if "C06" in props:
+    if "C06" in props and tr.features.tracklet_key in enabled_now:
         ta = tr.track_annotator
         want = {}
         for n in g.nodes:
@@ -307,7 +316,7 @@ def check_state(tr, props, where):
             for lab in np.unique(seg):
                 if lab != 0 and lab not in g.nodes:
                     out.append(("C07", f"{where}: label {lab} has no node"))
-        if "C08" in props and "area" in tr.features:
+        if "C08" in props and ("area" in enabled_now or "pos" in enabled_now):
             sc = tr.scale
             vox = float(np.prod(sc[1:])) if sc is not None else 1.0
             for n in g.nodes:
@@ -315,14 +324,14 @@ def check_state(tr, props, where):
                 m = seg[t] == n
                 if m.any():
                     a = g.nodes[n].get("area")
-                    if a is None or abs(float(a) - m.sum() * vox) > 1e-6:
+                    if "area" in enabled_now and (a is None or abs(float(a) - m.sum() * vox) > 1e-6):
                         out.append(("C08", f"{where}: area of node {n} is {a}, mask has {int(m.sum())} pixels x {vox}"))
-                    if tr.features.position_key == "pos":
+                    if tr.features.position_key == "pos" and "pos" in enabled_now:
                         c = np.argwhere(m).mean(axis=0) * (np.array(sc[1:]) if sc is not None else 1.0)
                         p = g.nodes[n].get("pos")
                         if p is None or np.abs(np.array(p, dtype=float) - c).max() > 1e-6:
                             out.append(("C08", f"{where}: pos of node {n} is {p}, centroid is {c.tolist()}"))
-        if "C09" in props and "iou" in tr.features:
+        if "C09" in props and "iou" in enabled_now:
             for u, v in g.edges:
                 a, b = seg[tr.get_time(u)] == u, seg[tr.get_time(v)] == v
                 un = (a | b).sum()
@@ -330,6 +339,37 @@ def check_state(tr, props, where):
                 got = g.edges[u, v].get("iou")
                 if got is None or abs(float(got) - ref) > 1e-9:
                     out.append(("C09", f"{where}: iou of edge {u}->{v} is {got}, masks give {ref}"))
+    return out
+
+
+def check_c10(tr, where, frozen, step, res):
+    """registry = static + enabled; disabled features are frozen; managed keys and time are protected"""
+    out = []
+    g = tr.graph
+    enabled = set(tr.annotators.features.keys())
+    avail = set(tr.annotators.all_features.keys())
+    reg = set(tr.features.keys())
+    static = {tr.features.time_key}
+    if tr.segmentation is None:
+        pk = tr.features.position_key
+        static |= set(pk) if isinstance(pk, list) else {pk}
+    if (reg & avail) != enabled or not static <= reg:
+        out.append(("C10", f"{where}: registry lists {sorted(reg)} but enabled features are {sorted(enabled)} (static {sorted(static)})"))
+    # a disabled feature is no longer changed by edits (values frozen when first seen disabled)
+    for k in avail - enabled:
+        cur = {int(n): _c(g.nodes[n].get(k)) for n in g.nodes} if tr.annotators.all_features[k][0]["feature_type"] == "node" else \
+              {f"{u}>{v}": _c(g.edges[u, v].get(k)) for u, v in g.edges}
+        if k in frozen:
+            # an element that was deleted and re-created by the edit (value None) is a new element, not a changed value
+            changed = {n: (frozen[k][n], cur[n]) for n in cur if n in frozen[k] and frozen[k][n] != cur[n] and cur[n] is not None}
+            if changed and step[0] not in ("enable", "disable"):
+                out.append(("C10", f"{where}: disabled feature {k!r} was changed by an edit: {changed}"))
+        frozen[k] = cur
+    for k in list(frozen):
+        if k in enabled:
+            del frozen[k]
+    if step[0] == "attrs" and res[0] == "ok" and (step[2] in avail or step[2] == tr.features.time_key):
+        out.append(("C10", f"{where}: attribute update of managed key {step[2]!r} was accepted"))
     return out
 
 
@@ -344,8 +384,16 @@ def run_scenario(sc, props, stop_at_first=True):
     viol = [v for v in viol if v[0] in ("C04", "C05", "C06", "C08", "C09")]  # construction-time clauses
     # C02 reference model: timeline of canonical states + cursor
     timeline, cur = [canon(tr)], 0
+    frozen = {}
     for i, step in enumerate(sc["steps"]):
+        if step[0] == "add_node" and len(step) > 6 and step[6] is not None and tr.segmentation is not None:
+            # documented precondition of adding a node with a mask: it paints onto background, inside the array
+            # (shrinking a scenario may remove the step that made these pixels free: such a scenario is discarded)
+            px = step[6]
+            if px[0][0] >= tr.segmentation.shape[0] or (tr.segmentation[tuple(np.array(x) for x in px)] != 0).any():
+                return [v for v in viol if v[0] in props]
         before = full_state(tr)
+        feats_before = {k: dict(v) for k, v in tr.features.items()}
         n_em = len(emits)
         res = do_step(tr, step, emits)
         after = full_state(tr)
@@ -367,9 +415,17 @@ def run_scenario(sc, props, stop_at_first=True):
                 if len(new_em) != (1 if can else 0):
                     viol.append(("C20", f"{where}: {len(new_em)} refresh emissions, expected {1 if can else 0}"))
         elif kind in ("enable", "disable"):
+            if res[0] == "refused":
+                if before != after or {k: dict(v) for k, v in tr.features.items()} != feats_before:
+                    viol.append(("C10", f"{where}: refused with {type(res[1]).__name__} but the tracks or the registry changed"))
+                if not isinstance(res[1], KeyError):
+                    viol.append(("C10", f"{where}: unknown feature raised {type(res[1]).__name__} instead of KeyError"))
+            elif "no_such_feature" in step[1]:
+                viol.append(("C10", f"{where}: unknown feature accepted"))
             timeline, cur = [canon(tr)], 0
             tr.action_history.undo_stack.clear()
             tr.action_history.redo_stack.clear()
+            frozen.clear()
         elif res[0] == "refused":
             if before != after:
                 diff = [k for k in before if before[k] != after[k]]
@@ -392,6 +448,8 @@ def run_scenario(sc, props, stop_at_first=True):
             elif kind == "add_node" and (len(new_em[0]) != 1 or new_em[0][0] != step[1]):
                 viol.append(("C20", f"{where}: refresh carried {new_em[0]} instead of the new node {step[1]}"))
             # C01: inverse restores, inverse of inverse re-applies (on a deep copy of the world: replay instead)
+        if "C10" in props:
+            viol += check_c10(tr, where, frozen, step, res)
         viol += check_state(tr, props, where)
         viol = [v for v in viol if v[0] in props]
         if viol and stop_at_first:
@@ -402,6 +460,7 @@ def run_scenario(sc, props, stop_at_first=True):
 def search(props, seed, budget, seg_choices=(False, True), focus=None, max_steps=10, ignore=()):
     import re
     rng = random.Random(seed)
+    rng.c10 = "C10" in props
     t0 = time.time()
     n = 0
     known = []
